@@ -728,6 +728,9 @@ func judge(s *Scenario, e expectation, o *ScenarioOutcome, image []byte, imageCl
 			if imageClass == "ok" && o.DstPost != imgDesc {
 				return mk("G1-exit0-wrong-output", "exit status 0 but the output file does not hold exactly the bytes the in-process API assembles from the comment-free form", imgDesc, o.DstPost)
 			}
+			if strings.HasPrefix(imageClass, "abnormal") {
+				return mk("G1-exit0-without-assembly", "exit status 0 although the in-process API does not assemble this source (it panics or exits): success was reported for an assembly that failed", "non-zero status", fmt.Sprintf("exit 0, dst %s, in-process: %s", o.DstPost, imageClass))
+			}
 			if imageClass == "parse_error" {
 				return mk("G1-exit0-on-parse-error", "exit status 0 although the source does not parse", "non-zero status with a position", fmt.Sprintf("exit 0, dst %s", o.DstPost))
 			}
